@@ -380,6 +380,11 @@ class MarkdownNormalizer(Renderer):
         else:  # loose
             is_tight = False
 
+        if self._prefix != self._second_prefix:
+            # The list starts on the first line of its container (directly after the marker
+            # of an enclosing list item): no separator line can go in front of it.
+            self._suppress_item_break = True
+
         # Save and set the tightness for this list
         old_tight = self._current_list_tight
         self._current_list_tight = is_tight
